@@ -11,6 +11,11 @@ THEOREMS = [
     "TornadoModel.C47.host_port_absent",
     "TornadoModel.C47.host_port_ipv6_literal",
     "TornadoModel.C47.environ_fields",
+    "TornadoModel.C47.environ_eq_expected",
+    "TornadoModel.C47.environ_final_fields",
+    "TornadoModel.C47.addHeaders_dget_plain",
+    "TornadoModel.C47.addHeaders_content_length",
+    "TornadoModel.C47.addHeaders_keys_nodup",
     "TornadoModel.C47.environ_content_headers",
     "TornadoModel.C47.response_faithful",
     "TornadoModel.C47.wire_shape",
@@ -45,10 +50,16 @@ RULE = ("requests built from a grammar (methods, escaped paths, queries, Host na
 EXHAUSTIVE = {"quick": False, "thorough": False}
 CLAUSES = {
     "building the environ never raises": "environ_total (old rule: old_environ_raises)",
-    "environ carries method, percent-decoded path, query string": "environ_fields",
-    "host name and port as the CGI conventions require": "host_port_explicit + host_port_absent + host_port_ipv6_literal + environ_fields",
-    "content headers and other headers": "environ_content_headers + http_var_name + environ_http_vars + environ_http_names + "
-        "content_headers_not_http (headers whose HTTP_* name collides with a differently spelled header: last one wins in the model, "
+    "environ carries method, percent-decoded path, query string": "environ_eq_expected (the FINAL environ contains every entry of "
+        "Spec.expected and no variable outside Spec.allowedKey: the two predicates the oracle applies) + environ_final_fields "
+        "(per variable) + addHeaders_dget_plain (no request header can overwrite them); environ_fields is the step lemma. "
+        "PATH_INFO: `percent-decoded` is C31's `unquote` on both sides (model = Spec here; tied to urllib by C31)",
+    "host name and port as the CGI conventions require": "host_port_explicit + host_port_absent + host_port_ipv6_literal + "
+        "environ_eq_expected / environ_final_fields (SERVER_NAME, SERVER_PORT in the final environ)",
+    "content headers and other headers": "environ_eq_expected (CONTENT_TYPE, CONTENT_LENGTH, unambiguous HTTP_* present with the joined "
+        "values; nothing else present) from environ_content_headers + addHeaders_content_length + http_var_name + environ_http_vars + "
+        "environ_http_names + content_headers_not_http; addHeaders_keys_nodup (variable names stay distinct) "
+        "(headers whose HTTP_* name collides with a differently spelled header: last one wins in the model, "
         "tie only: correspondence; the oracle `Spec.expected` skips them)",
     "status, headers and body reach the client unchanged apart from the three defaults":
         "response_faithful + group_values + body_join + body_dropped + wire_shape; tie only: the wire bytes themselves "
@@ -361,8 +372,10 @@ def impl_view(case, impl):
 def _sreq(case, impl):
     h = case["host"]
     if "raw" in h:
-        return None
-    name, port = ("127.0.0.1", None) if "absent" in h else (h["name"], h["port"])
+        # a malformed Host has no specified SERVER_NAME / SERVER_PORT; every other variable is still checked
+        name, port = h["raw"], None
+    else:
+        name, port = ("127.0.0.1", None) if "absent" in h else (h["name"], h["port"])
     sn = impl["snap"]
     return [case["method"], case["path"], case["query"], name, port, atom(False), "1.2.3.4", case["version"], sn["headers"],
             bytes.fromhex(case["body"])]
@@ -401,8 +414,11 @@ def spec_violation(case, impl, replies):
         i = 2
         have = dict((k, v) for k, v in env["vars"])
         ascii_target = all(ord(c) < 128 for c in case["path"])
+        raw_host = "raw" in case["host"]
         for k, v in want:
             if k == "PATH_INFO" and not ascii_target:
+                continue
+            if raw_host and k in ("SERVER_NAME", "SERVER_PORT"):
                 continue
             if have.get(k) != v:
                 return "environ: %s should be %r, is %r" % (k, v, have.get(k))
